@@ -16,6 +16,7 @@ import functools
 import random
 from typing import Any
 
+from sim import shadow as SH
 from sim import wire as W
 from sim.gateway import SimGateway
 from sim.world import Run
@@ -83,7 +84,9 @@ def gen_index(i: int, seed: int, tier: str) -> dict[str, Any]:
             ops.append({"t": round(base + rng.choice([0.0, 0.0, 1e-6, 0.5, 5.0]), 6),
                         "op": rng.choice(["stop", "start", "start", "restart"])})
         ops.sort(key=lambda o: o["t"])
-        return {"seed": seed, "tier": "S", "config": {"mode": "hb"}, "outcomes": outcomes, "ops": ops}
+        # (a second heartbeat of the same name - every tunnel names its heartbeat alike - is alive in the same process and
+        # always gets its answers)
+        return {"seed": seed, "tier": "S", "config": {"mode": "hb", "shadow": rng.random() < 0.2}, "outcomes": outcomes, "ops": ops}
     n = rng.randint(1, 8)
     beh = []
     for _ in range(n):
@@ -96,7 +99,9 @@ def gen_index(i: int, seed: int, tier: str) -> dict[str, Any]:
         beh.append(b)
     return {"seed": seed, "tier": "S",
             "config": {"mode": "tunnel", "transport": rng.choice(["udp", "udp", "tcp"]),
-                       "auto_reconnect": rng.random() < 0.7},
+                       "auto_reconnect": rng.random() < 0.7,
+                       # a second tunnel (own XKNX object, own gateway) lives in the same process meanwhile
+                       "shadow": rng.random() < 0.2},
             "gw": {"connstate": beh, "first_channel": rng.choice([1, 1, 0, 255])}, "ops": []}
 
 
@@ -149,6 +154,19 @@ def run_hb(plan):
     async def main():
         hb = ConnectionHeartbeat("sim", send_connectionstate, on_failure)
         t0 = loop.time()
+        hb2 = None
+        if plan["config"].get("shadow"):
+            async def always_ok():
+                await asyncio.sleep(0.01)
+                return True, None
+
+            async def never():
+                return None
+            hb2 = ConnectionHeartbeat("sim", always_ok, never)
+            hb2.start()
+            await asyncio.sleep(RATE / 3)       # its beats fall between those of the judged one
+            t0 = loop.time()
+            R.extra_faults["second_heartbeat_of_the_same_name_alive"] += 1
         hb.start()
         calls.append((t0, "start"))
 
@@ -169,6 +187,8 @@ def run_hb(plan):
         horizon = t_end_ops + (len(outcomes) + 2) * (RATE + 4 * TO) + 5
         await asyncio.sleep(horizon)
         hb.stop()
+        if hb2 is not None:
+            hb2.stop()
         calls.append((loop.time(), "end"))
         await asyncio.sleep(RATE * 2 + 1)   # nothing may be sent after stop()
 
@@ -286,7 +306,13 @@ def run_tunnel(plan):
             tunnel = TCPTunnel(xknx, cemi_received_callback=lambda raw: None, gateway_ip=gw.ip, gateway_port=gw.port,
                                auto_reconnect=cfg["auto_reconnect"], auto_reconnect_wait=1)
         await tunnel.connect()
+        sh = None
+        if cfg.get("shadow"):
+            sh = SH.start(R, SH.udp_tunnel_life(R, horizon=(n_beh + 2) * 115.0 - 5.0, seed=plan["seed"],
+                                                first_channel=(plan.get("gw") or {}).get("first_channel", 1), period=40.0,
+                                                start_after=7.0, reconnects=0))
         await asyncio.sleep((n_beh + 2) * 115.0)
+        await SH.finish(sh)
         try:
             await tunnel.disconnect()
         except CommunicationError:
@@ -307,7 +333,7 @@ def oracle_tunnel(R: Run, states, cfg):
     tcp = cfg["transport"] == "tcp"
     ev = []  # (t, kind, payload)
     for (n, t, it, kind, actor, detail) in R.events:
-        if kind in ("udp_out", "tcp_out") and (tcp or str(actor).startswith(client_ip + ":")):
+        if (kind == "tcp_out" and tcp) or (kind == "udp_out" and not tcp and str(actor).startswith(client_ip + ":")):
             data = bytes.fromhex(detail)
             while len(data) >= 6:
                 h = W.parse_header(data)
@@ -320,7 +346,7 @@ def oracle_tunnel(R: Run, states, cfg):
                     ev.append((t, "connect_req", None))
                 elif h[0] == W.DISCONNECT_REQ:
                     ev.append((t, "disconnect_req", fr[6]))
-        elif kind in ("udp_in", "tcp_in") and (tcp or f">{client_ip}:" in str(actor)):
+        elif (kind == "tcp_in" and tcp) or (kind == "udp_in" and not tcp and f">{client_ip}:" in str(actor)):
             data = bytes.fromhex(detail)
             while len(data) >= 6:
                 h = W.parse_header(data)
